@@ -96,6 +96,7 @@ theorem inv_step (s : State) (i : Nat) (h : Inv s.fs.get s.procs) :
     cases o with
     | mkdir => simp only [stepOp] at hself ⊢; exact sameCase _ rfl hself
     | mark m => simp only [stepOp] at hself ⊢; exact sameCase _ rfl hself
+    | unsigned k => simp only [stepOp] at hself ⊢; exact sameCase _ rfl hself
     | create t c =>
       simp only [stepOp] at hself ⊢
       obtain ⟨hun, htmp⟩ := hok
@@ -285,5 +286,91 @@ theorem inv_step (s : State) (i : Nat) (h : Inv s.fs.get s.procs) :
             rcases hm with hm | ⟨rfl, rfl, rfl⟩
             · exact h.obsOk i n' c' b' k (by rw [hO]; exact hm) hn
             · subst hn; rw [resolve_eq] at hres; exact good_resolve h.good hres
+
+/-- no step of any well-typed builder removes a final name (a `rename` may replace it — by the same
+complete content, see `inv_step`) -/
+theorem adv_present_persist (s : State) (i : Nat) (h : Inv s.fs.get s.procs)
+    (k : Cid) (hk : s.fs.get (.adv k) ≠ none) : (s.step i).fs.get (.adv k) ≠ none := by
+  have hty := h.typed i
+  rw [step_fs]
+  revert hty
+  generalize hp : s.procs i = p
+  intro hty
+  obtain ⟨prog, Γ, obs, marks⟩ := p
+  have hΓ : (s.procs i).ctx = Γ := by rw [hp]
+  have tmpne : ∀ t, Owns Γ t → Name.adv k ≠ t := by
+    intro t ho e
+    have := h.ownTmp i t (by rw [hΓ]; exact ho)
+    rw [← e] at this; simp [Name.isTmp] at this
+  cases prog with
+  | halt b => exact hk
+  | ifStat n y no => exact hk
+  | op o next =>
+    simp only [wt] at hty
+    obtain ⟨hok, _⟩ := hty
+    simp only [stepProc]
+    cases o with
+    | mkdir => exact hk
+    | mark m => exact hk
+    | unsigned k0 => exact hk
+    | create t c =>
+      simp only [stepOp]
+      cases habs : s.fs.get t with
+      | none =>
+        have : Name.adv k ≠ t := by intro e; rw [e] at hk; exact hk habs
+        simp [FS.set, this, hk]
+      | some n => exact hk
+    | chunk t =>
+      simp only [stepOp]
+      obtain ⟨c0, hc0⟩ := hok
+      have := tmpne t (owns_opened hc0)
+      have hgt := h.ownOpen i t c0 (by rw [hΓ]; exact hc0)
+      simp [hgt, FS.set, this, hk]
+    | finish t =>
+      simp only [stepOp]
+      obtain ⟨c0, hc0⟩ := hok
+      have := tmpne t (owns_opened hc0)
+      have hgt := h.ownOpen i t c0 (by rw [hΓ]; exact hc0)
+      simp [hgt, FS.set, this, hk]
+    | symlink t dst =>
+      simp only [stepOp]
+      cases habs : s.fs.get dst with
+      | none =>
+        have : Name.adv k ≠ dst := by intro e; rw [e] at hk; exact hk habs
+        simp [FS.set, this, hk]
+      | some n => exact hk
+    | remove t =>
+      simp only [stepOp]
+      obtain ⟨c0, hc0⟩ := hok
+      have := tmpne t (owns_closed hc0)
+      simp [FS.set, this, hk]
+    | rename t dst =>
+      simp only [stepOp]
+      obtain ⟨k0, hk0, hdst⟩ := hok
+      have := tmpne t (owns_closed hk0)
+      have hgt := h.ownClosed i t k0 (by rw [hΓ]; exact hk0)
+      simp only [hgt, FS.set, this, if_false]
+      split
+      · simp
+      · exact hk
+    | regen dst c => exact hok.elim
+    | read n checked =>
+      simp only [stepOp]
+      cases s.fs.resolve n with
+      | none => exact hk
+      | some cb =>
+        obtain ⟨c, b⟩ := cb
+        by_cases hc : (checked && !b) = true <;> simp [hc, hk]
+    | readNewest cands =>
+      simp only [stepOp]
+      cases s.fs.newest cands with
+      | none => exact hk
+      | some n =>
+        dsimp only
+        cases s.fs.resolve n with
+        | none => exact hk
+        | some cb =>
+          obtain ⟨c, b⟩ := cb
+          by_cases hc : (!b) = true <;> simp [hc, hk]
 
 end Apko.C19
